@@ -1,4 +1,4 @@
-package main
+package hz
 
 import (
 	"flag"
@@ -7,13 +7,13 @@ import (
 	"os"
 )
 
-type runner func(rng *rand.Rand, n int, out *Out, args []string)
+// Runner produces cases / oracle verdicts for one suite.
+type Runner func(rng *rand.Rand, n int, out *Out, args []string)
 
-var runners = map[string]runner{}
-
-func main() {
+// Main is the entry point of every harness binary: <bin> <suite> -seed S -n N -out FILE [args...]
+func Main(runners map[string]Runner) {
 	if len(os.Args) < 2 {
-		fmt.Println("usage: zharness <suite> -seed S -n N -out FILE")
+		fmt.Println("usage: <bin> <suite> -seed S -n N -out FILE")
 		os.Exit(2)
 	}
 	suite := os.Args[1]
@@ -31,5 +31,5 @@ func main() {
 	rng := rand.New(rand.NewSource(*seed))
 	r(rng, *n, out, fs.Args())
 	out.Close()
-	fmt.Printf("suite=%s cases=%d oracle_fails=%d\n", suite, out.cases, out.fails)
+	fmt.Printf("suite=%s cases=%d oracle_fails=%d\n", suite, out.Cases, out.Fails)
 }
